@@ -274,9 +274,9 @@ def rule_u4_u5(chk: Check, ci) -> None:
                 shapes[name] = norm(st.value).replace(var, "<PATH>")
     ok = len(shapes) == 2 and len(set(shapes.values())) == 1
     if len(shapes) == 2 and not ok:
-        chk.finding("U4", ci.key, "target-divergence", f"upload and delete resolve their target differently: {shapes}", "")
+        chk.note(f"U4 (advisory, not a verdict): upload and delete resolve their target differently: {shapes}; U1 checks each mutated path on its own")
     if len(shapes) == 2:
-        chk.ob("U4", "target computation agrees", ok)
+        chk.ob("U4", "target computation compared (advisory)", True, "agree" if ok else "DIFFER", nontrivial=False)
     gu = chk.proj.func("server.config:ServerConfig.get_upload_handler")
     pairs = {"upload_dir": "self.titan_upload_dir", "max_size": "self.titan_max_upload_size", "allowed_types": "self.titan_allowed_mime_types", "enable_delete": "self.titan_enable_delete"}
     found = 0
@@ -316,9 +316,26 @@ def rule_u4_u5(chk: Check, ci) -> None:
     chk.ob("U5", "enable_titan = false -> no handler", okn)
 
 
+def rule_u1_pred(chk: Check, ci) -> None:
+    """The upload handler's containment predicate is path-wise against a
+    resolved root and truthy only when the containment call succeeded (same rule
+    as C02.P2, reported under U1)."""
+    from .c02 import rule_p2
+
+    before = len(chk.findings)
+    nob = len(chk.obligations)
+    rule_p2(chk, ci, _safe_pred_methods(ci))
+    for f in chk.findings[before:]:
+        f.rule = "U1"
+    for o in chk.obligations[nob:]:
+        o["rule"] = f"{chk.prop}.U1"
+    chk.rules.pop("P2", None)
+
+
 def run(chk: Check) -> None:
     ci = chk.proj.cls(HANDLER)
     rule_u1(chk, ci)
+    rule_u1_pred(chk, ci)
     rule_u2(chk, ci)
     rule_u3(chk, ci)
     rule_u4_u5(chk, ci)
